@@ -176,7 +176,8 @@ pub fn run(tier: Tier, shard: Shard, rep: &mut Report) {
          execution: own filesystem steps of each operation <= {} + {} x (directory entries it listed); no flock/lockf/fcntl lock; no \
          O_CREAT|O_EXCL inside a cache directory outside .kismet_temp; <= 2 publication attempts per write; no deadlock; no operation \
          failing or spinning past the horizon. Plus: a solo sharded set/put under every combination of load estimates {{0, 101, 255}} x {{0, 101, 255}} left behind by peers \
-         (shard capacity 50) and of where the key lives: it finishes within 3000 of its own filesystem steps. \
+         (shard capacity 50) and of where the key lives: it finishes within 3000 of its own filesystem steps; likewise put/set/ensure/get/touch/put_temp_file \
+         when a dangling symbolic link, a symbolic link to a directory or a directory sits under the key's name. \
          Non-trivial = execution with >= 1 preemption; solo suffixes are counted.",
         STEP_A, STEP_B
     );
@@ -193,6 +194,8 @@ pub fn run(tier: Tier, shard: Shard, rep: &mut Report) {
     rep.count("solo_suffixes_observed", solo);
     crate::run::reset_env();
     estimate_section(shard, rep);
+    crate::run::reset_env();
+    odd_state_section(shard, rep);
 }
 
 /// Aborts the (forked) process once the operation has issued more than `budget` filesystem calls.
@@ -285,7 +288,84 @@ fn estimate_section(shard: Shard, rep: &mut Report) {
     }
 }
 
+/// Directory states in which the filesystem keeps giving two answers that only look like a race (a dangling symbolic
+/// link under the key's name: link says "exists", open and utimens say "absent"), with nobody else running: every
+/// operation still finishes in a bounded number of its own steps.
+fn odd_state_section(shard: Shard, rep: &mut Report) {
+    use crate::ops::{Op, Pop, StackCfg, Front, Checker, Dirs};
+    use crate::world::{Scratch, Size, Val};
+    let mut no = 0u64;
+    for sharded in [false, true] {
+        for state in ["dangling-symlink", "symlink-to-directory", "directory"] {
+            for opk in 0..6u8 {
+                no += 1;
+                if !shard.mine(no) {
+                    continue;
+                }
+                crate::run::reset_env();
+                let sc = Scratch::new();
+                let dirs = Dirs::under(&sc.root, 0);
+                let front = if sharded { Front::Sharded(2) } else { Front::Plain };
+                let key = crate::ops::key_for_shards("k", 0, 1, 2);
+                let home = crate::ops::candidate_dirs(&dirs.write, front, &key)[0].clone();
+                crate::shim::passthrough(|| {
+                    std::fs::create_dir_all(&home).unwrap();
+                    let gone = sc.path("gone-target");
+                    match state {
+                        "dangling-symlink" => std::os::unix::fs::symlink(&gone, home.join("k")).unwrap(),
+                        "symlink-to-directory" => {
+                            std::fs::create_dir_all(&gone).unwrap();
+                            std::os::unix::fs::symlink(&gone, home.join("k")).unwrap();
+                        }
+                        _ => std::fs::create_dir_all(home.join("k")).unwrap(),
+                    }
+                });
+                let cfg = StackCfg { writer: Some((front, 1 << 40)), readers: vec![], checker: Checker::None, auto_sync: true };
+                let cache = crate::ops::build(&cfg, &dirs, None);
+                let v = Val::new(1, Size::One);
+                let op = match opk {
+                    0 => Op::Put(key.clone(), v),
+                    1 => Op::Set(key.clone(), v),
+                    2 => Op::Ensure(key.clone(), Pop::Value(v)),
+                    3 => Op::Get(key.clone()),
+                    4 => Op::Touch(key.clone()),
+                    _ => Op::PutTemp(key.clone(), v),
+                };
+                rep.evaluations += 1;
+                rep.states += 1;
+                rep.traces += 1;
+                rep.count("odd_state_cases", 1);
+                let pid = unsafe { libc::fork() };
+                if pid == 0 {
+                    crate::shim::set_controller(Some(std::sync::Arc::new(Budget { budget: 3000, n: std::sync::atomic::AtomicU64::new(0) })));
+                    let _ = crate::run::as_participant(0, 0, || {
+                        crate::run::trigger_never();
+                        crate::ops::exec(&cache, &dirs, &op, &Default::default())
+                    });
+                    unsafe { libc::_exit(0) };
+                }
+                let mut status: libc::c_int = 0;
+                unsafe { libc::waitpid(pid, &mut status, 0) };
+                let code = if libc::WIFEXITED(status) { libc::WEXITSTATUS(status) } else { -1 };
+                if code == 137 {
+                    rep.violation(
+                        "progress:step-bound",
+                        format!("{} {} with a {} under the key's name, alone: still running after 3000 filesystem steps", if sharded { "sharded" } else { "plain" }, op.label(), state),
+                        serde_json::json!({"odd_state_section": true}),
+                    );
+                } else if code != 0 {
+                    rep.violation("progress:panic", format!("{} {} with a {} under the key's name: child ended with {}", if sharded { "sharded" } else { "plain" }, op.label(), state, code), serde_json::json!({"odd_state_section": true}));
+                }
+            }
+        }
+    }
+}
+
 pub fn replay(case: &Value, rep: &mut Report) {
+    if case.get("odd_state_section").is_some() {
+        odd_state_section(Shard { index: 0, count: 1 }, rep);
+        return;
+    }
     if case.get("estimate_section").is_some() {
         estimate_section(Shard { index: 0, count: 1 }, rep);
         return;
